@@ -150,6 +150,12 @@ structure S where
   a : A := {}
   /-- `aq.received` when the current main-context call was entered -/
   drainFrom : Nat := 0
+  /-- stamps the handler has read from the events it received, oldest first -/
+  evlog : List Nat := []
+  /-- some `fibre_eventq_send` has returned false (its wake-up was refused: taint 'A') -/
+  evWakeFailed : Bool := false
+  /-- `fibre_kill` was applied to the handler fibre -/
+  handlerKilled : Bool := false
 
 /-- fibre 0 is the handler fibre embedded in the `fibre_eventq_t` -/
 def HANDLER : Fid := 0
@@ -173,27 +179,23 @@ def emit (o : Obs) (s : S) : S := { s with a := s.a.step o }
 
 /-! ## senders -/
 
-/-- where a sender is after one atomic operation inside `messageq_claim` -/
-def afterClaim (q : MQ) (i : Nat) (got null again : IPc) : IPc :=
-  match q.senders[i]? with
-  | some (.hasSlot _ _) => got        -- the compare-exchange succeeded: claim returns the slot
-  | some .idle => null                -- the fetch_add after a failing fetch_sub: claim returns NULL
-  | _ => again                        -- fetch_sub succeeded / sendp loaded / compare-exchange failed: still inside
-
 /-- the next atomic operation of sender `i` -/
 def senderAtomic (i : Nat) (s : S) : S :=
   match s.ipc i with
   | .evClaim st =>
-    match afterClaim (mqStep s.eq (.sender i false st)) i (.evClaimed st) (.evNull st) (.evClaim st) with
-    | .evClaimed st' =>
+    match (mqStep s.eq (.sender i false st)).senders[i]? with
+    | some (.hasSlot _ _) =>
       -- the compare-exchange that fixes the buffer: the event takes its place in the queue at this instant
-      tok (.claimed st) (emit (.evClaimed st) { s with eq := mqStep s.eq (.sender i false st), ipc := upd s.ipc i (.evClaimed st') })
-    | pc => { s with eq := mqStep s.eq (.sender i false st), ipc := upd s.ipc i pc }
+      tok (.claimed st) (emit (.evClaimed st) { s with eq := mqStep s.eq (.sender i false st), ipc := upd s.ipc i (.evClaimed st) })
+    | some .idle => { s with eq := mqStep s.eq (.sender i false st), ipc := upd s.ipc i (.evNull st) }    -- fetch_add done: NULL
+    | _ => { s with eq := mqStep s.eq (.sender i false st) }                                           -- still inside messageq_claim
   | .evTaint st => { s with taint := s.taint ||| 16#32, ipc := upd s.ipc i (.evTainted st) }       -- 1 << ('E' - 'A')
   | .evSend st => { s with eq := mqStep s.eq (.sender i false st), ipc := upd s.ipc i (.evSent st) }
   | .raClaim f ev =>
-    { s with aq := mqStep s.aq (.sender i false f)
-             ipc := upd s.ipc i (afterClaim (mqStep s.aq (.sender i false f)) i (.raClaimed f ev) (.raNull f ev) (.raClaim f ev)) }
+    match (mqStep s.aq (.sender i false f)).senders[i]? with
+    | some (.hasSlot _ _) => { s with aq := mqStep s.aq (.sender i false f), ipc := upd s.ipc i (.raClaimed f ev) }
+    | some .idle => { s with aq := mqStep s.aq (.sender i false f), ipc := upd s.ipc i (.raNull f ev) }
+    | _ => { s with aq := mqStep s.aq (.sender i false f) }
   | .raTaint f ev => { s with taint := s.taint ||| 1#32, ipc := upd s.ipc i (.raTainted f ev) }     -- 1 << ('A' - 'A')
   | .raSend f ev =>
     -- the request is published at this instant
@@ -214,8 +216,10 @@ def senderPlain (i : Nat) (s : S) : S :=
     { s with aq := mqStep s.aq (.sender i false f), ipc := upd s.ipc i (.raSend f ev) }
   | .raNull f ev => { s with ipc := upd s.ipc i (.raTaint f ev) }
   | .raTainted f ev =>
-    let s1 := emit (.rejected f) s
-    finishSender i (.bool false) (match ev with | some st => emit (.evSent st false) s1 | none => s1)
+    finishSender i (.bool false)
+      (match ev with
+       | some st => emit (.evSent st false) (emit (.rejected f) { s with evWakeFailed := true })
+       | none => emit (.rejected f) s)
   | .raSent _ ev =>
     finishSender i (.bool true) (match ev with | some st => emit (.evSent st true) s | none => s)
   | _ => s
@@ -236,9 +240,8 @@ def returned (s : S) (r : Ret) : S :=
     finishPass (emit (.bodyReturned true) (tok (.bret r) { s with k := { s.k with state := r } })) s.k.now
   else emit (.bodyReturned false) (tok (.bret r) { s with k := { s.k with state := r }, mpc := .wake })
 
-/-- `kernel.current->fn(kernel.current)` for `kernel.current = c`, up to its first atomic operation or its return -/
-def body (s : S) (c : Fid) : S :=
-  let s := tok (.disp c) (emit (.dispatched c) { s with dispatchedNow := true })
+/-- the entry point of fibre `c`, by kind, up to its first atomic operation or its return -/
+def bodyOf (s : S) (c : Fid) : S :=
   match s.kind c with
   | .handler => { s with mpc := .hRecv }
   | .yielder =>
@@ -253,6 +256,10 @@ def body (s : S) (c : Fid) : S :=
                    sdue := upd s.sdue c (s.k.now + period) })) .waiting
     else returned (tok (.tmo false) { s with k := (fibreTimeout s.k c (s.sdue c)).1 }) .waiting
   | .waiter => returned s .waiting
+
+/-- `kernel.current->fn(kernel.current)` for `kernel.current = c` -/
+def body (s : S) (c : Fid) : S :=
+  bodyOf (tok (.disp c) (emit (.dispatched c) { s with dispatchedNow := true })) c
 
 /-- `if (kernel.current) { kernel.state = kernel.current->fn(kernel.current); … } return get_next_wakeup();` -/
 def dispatch (s : S) : S :=
@@ -270,6 +277,7 @@ def afterDrain (s : S) : Cont → S
     emit (.killed f)
       { s with k := { s.k with runq := s.k.runq.erase f, timerq := s.k.timerq.erase f }
                lastBool := decide (f ∈ s.k.runq) || decide (f ∈ s.k.timerq)
+               handlerKilled := s.handlerKilled || decide (f = HANDLER)
                mpc := .idle }
   | .pass1 =>
     match s.k.current with
@@ -301,14 +309,15 @@ def mainAtomic (s : S) : S :=
   | .wake => tok .look (emit .looked { s with mpc := .woke (mqEmpty s.aq) })
   | _ => s
 
+/-- `kernel.now = time` is done; the first three operands of the fast-path condition are plain reads -/
+def startNext (s : S) : S :=
+  if s.k.state ≠ .yielded ∨ s.k.runq ≠ [] ∨ s.k.timerq ≠ [] then { s with mpc := .recv .pass1 }
+  else { s with mpc := .fast }
+
 /-- the plain code of the main context up to its next atomic operation (or to the return of the call) -/
 def mainPlain (s : S) : S :=
   match s.mpc with
-  | .start (.next t) =>
-    let s := tok .passBegin (emit .passBegin { s with k := { s.k with now := t }, drainFrom := s.aq.received })
-    -- the first three operands of the fast-path condition are plain reads
-    if s.k.state ≠ .yielded ∨ s.k.runq ≠ [] ∨ s.k.timerq ≠ [] then { s with mpc := .recv .pass1 }
-    else { s with mpc := .fast }
+  | .start (.next t) => startNext (tok .passBegin (emit .passBegin { s with k := { s.k with now := t }, drainFrom := s.aq.received }))
   | .start (.run f) => { s with mpc := .recv (.run f), drainFrom := s.aq.received }
   | .start (.kill f) => { s with mpc := .recv (.kill f), drainFrom := s.aq.received }
   | .fastDone e => if e then dispatch s else { s with mpc := .recv .pass1 }
@@ -326,7 +335,7 @@ def mainPlain (s : S) : S :=
     match s.eq.recv with
     | .hold sl _ =>      -- process(e): read the stamp
       tok (.proc (s.eq.payload sl.toNat)) (emit (.evProcessed (s.eq.payload sl.toNat))
-        { s with eq := mqStep s.eq (.recv false), mpc := .hRel })
+        { s with eq := mqStep s.eq (.recv false), mpc := .hRel, evlog := s.evlog ++ [s.eq.payload sl.toNat] })
     | _ => returned s .waiting       -- PT_WAIT_UNTIL: nothing there
   | .hReld => { s with mpc := .hRecv }
   | .woke e => finishPass s (wakeValue s.k e)
@@ -350,9 +359,15 @@ def runSender (gap : Point → S → S) (i : Nat) (c : ICall) : Nat → Nat → 
 
 def SENDER_FUEL : Nat := 400
 
-/-- sender `i` performs the call `c` -/
+def enterSender (i : Nat) (c : ICall) (s : S) : S :=
+  { s with ipc := upd s.ipc i (startPc c), ires := upd s.ires i .pending, fired := s.fired + 1 }
+
+/-- sender `i` performs the call `c` (a context that is still inside a call — only possible after the fuel of an
+    earlier run was exhausted — cannot enter another one: the history is cut, `hung`) -/
 def callSender (gap : Point → S → S) (i : Nat) (c : ICall) (s : S) : S :=
-  runSender gap i c SENDER_FUEL 0 { s with ipc := upd s.ipc i (startPc c), ires := upd s.ires i .pending, fired := s.fired + 1 }
+  match s.ipc i with
+  | .idle => runSender gap i c SENDER_FUEL 0 (enterSender i c s)
+  | _ => tok .hang { s with hung := true }
 
 def runMain (gap : Point → S → S) (c : MCall) : Nat → Nat → S → S
   | 0, _, s => tok .hang { s with hung := true }
@@ -365,8 +380,12 @@ def runMain (gap : Point → S → S) (c : MCall) : Nat → Nat → S → S
 def MAIN_FUEL : Nat := 4000
 
 /-- the main context performs the call `c` -/
+def enterMain (c : MCall) (s : S) : S := { s with mpc := .start c, dispatchedNow := false, fired := s.fired + 1 }
+
 def callMain (gap : Point → S → S) (c : MCall) (s : S) : S :=
-  runMain gap c MAIN_FUEL 0 { s with mpc := .start c, dispatchedNow := false, fired := s.fired + 1 }
+  match s.mpc with
+  | .idle => runMain gap c MAIN_FUEL 0 (enterMain c s)
+  | _ => tok .hang { s with hung := true }
 
 /-- an interrupt-context call with the handlers nested inside it -/
 structure Isr where
